@@ -121,7 +121,8 @@ async fn scenario(sim: Arc<Sim>, unit: Value, header: String, dur_ms: u64) -> Ob
     tokio::time::sleep(ms(100)).await;
     let mut spec = RpcSpec::new("t");
     if header != "<absent>" {
-        spec = spec.header("timeout", header.clone());
+        let stamp = unit["stamp"].as_bool().unwrap_or(false);
+        spec = spec.header(if stamp { "h-stamp-timeout" } else { "timeout" }, header.clone());
     }
     if dur_ms == u64::MAX {
         spec = spec.header("never", "1");
@@ -189,7 +190,9 @@ fn judge(unit: &Value, header: &str, dur_ms: u64, o: &Obs) -> Judged {
     let l = lat_ms as u128 * NS_PER_MS;
     let h = ref_parse(header);
     let s = min_opt(h, opt(&unit["in_callee"]).map(|m| m as u128 * NS_PER_MS));
-    let c = min_opt(h, opt(&unit["out_caller"]).map(|m| m as u128 * NS_PER_MS));
+    // a header stamped by the caller's own middleware is not seen by the caller's timeout layer
+    let stamp = unit["stamp"].as_bool().unwrap_or(false);
+    let c = min_opt(if stamp { None } else { h }, opt(&unit["out_caller"]).map(|m| m as u128 * NS_PER_MS));
     let d: Option<u128> = (dur_ms != u64::MAX).then_some(dur_ms as u128 * NS_PER_MS);
     let tol = 2 * NS_PER_MS;
     // what the serving side does
@@ -214,7 +217,7 @@ fn judge(unit: &Value, header: &str, dur_ms: u64, o: &Obs) -> Judged {
     let resp_arrival = served.map(|(t, _)| 2 * l + t);
     let t_end = o.t_end_us as u128 * 1000;
     let ctx = format!(
-        "[in_callee={:?} out_caller={:?} in_caller={:?} out_callee={:?} header={header:?} handler={} lat={lat_ms}ms user_layer={} via_peer={} stream_busy={stream_busy}]",
+        "[in_callee={:?} out_caller={:?} in_caller={:?} out_callee={:?} header={header:?} handler={} lat={lat_ms}ms user_layer={} via_peer={} stream_busy={stream_busy} header_stamped_by_user_layer={stamp}]",
         opt(&unit["in_callee"]), opt(&unit["out_caller"]), opt(&unit["in_caller"]), opt(&unit["out_callee"]),
         if dur_ms == u64::MAX { "never".to_string() } else { format!("{dur_ms}ms") },
         unit["user_layer"], unit["via_peer"]
@@ -305,7 +308,9 @@ fn judge(unit: &Value, header: &str, dur_ms: u64, o: &Obs) -> Judged {
         if let (Some(start), Some((t, st))) = (o.handler_start_us.map(|u| u as u128 * 1000), served) {
             let cancelled_first = caller_gone_at.map(|g| g + tol < start + t).unwrap_or(false);
             let cancel_tie = caller_gone_at.map(|g| g + tol >= start + t && g <= start + t + tol).unwrap_or(false);
-            if !cancelled_first && !cancel_tie {
+            // beyond the horizon the harness itself abandons the call
+            let beyond = start + t + tol >= horizon;
+            if !cancelled_first && !cancel_tie && !beyond {
                 if st == "Success" {
                     match o.handler_complete_us {
                         Some(tc) if (tc as u128 * 1000) + tol >= start + t && (tc as u128 * 1000) <= start + t + tol => {}
@@ -335,7 +340,7 @@ impl Check for C11 {
         CheckMeta {
             property: "C11",
             level: "exploration",
-            rule: "full cross product of (callee inbound default, caller outbound default) in {none,50ms,200ms}^2, header in a 12-value menu (absent, 0, 1, 60ms, 100ms, 10s, u64::MAX, overflow, non-numeric...), handler duration in {0,30ms,120ms,1s,never}, latency {2,5}ms, with/without a user outbound layer, via Network::rpc and Peer::rpc; thorough also crosses the settings of the other two ends; each case is one whole-system execution in virtual time compared with the closed-form min() reference; distinct = distinct (expected outcome kind, handler fate)".into(),
+            rule: "full cross product of (callee inbound default, caller outbound default) in {none,50ms,200ms}^2, header in a 12-value menu (absent, 0, 1, 60ms, 100ms, 10s, u64::MAX, overflow, non-numeric...), handler duration in {0,30ms,120ms,1s,never}, latency {2,5}ms, with/without a user outbound layer (which in a third variant stamps the timeout header itself, below the caller's own timeout layer, so that only the serving side can enforce it), via Network::rpc and Peer::rpc; thorough also crosses the settings of the other two ends; each case is one whole-system execution in virtual time compared with the closed-form min() reference; distinct = distinct (expected outcome kind, handler fate)".into(),
             assumptions: vec![
                 "virtual time: completion instants are compared to the millisecond; cases whose two candidate deadlines lie within 2 ms of each other are excluded as ties and counted".into(),
             ],
@@ -353,9 +358,9 @@ impl Check for C11 {
             for out_caller in DEFAULTS {
                 for (in_caller, out_callee) in &other {
                     for lat in [2u64, 5] {
-                        for (user_layer, via_peer) in [(false, false), (true, true)] {
+                        for (user_layer, via_peer, stamp) in [(false, false, false), (true, true, false), (true, false, true)] {
                             let _ = tier;
-                            u.push(json!({"in_callee":in_callee,"out_caller":out_caller,"in_caller":in_caller,"out_callee":out_callee,"lat_ms":lat,"user_layer":user_layer,"via_peer":via_peer}));
+                            u.push(json!({"in_callee":in_callee,"out_caller":out_caller,"in_caller":in_caller,"out_callee":out_callee,"lat_ms":lat,"user_layer":user_layer,"via_peer":via_peer,"stamp":stamp}));
                             // the same with the callee's only request stream occupied by an earlier call
                             // (only where that earlier call is not itself cut off by a default)
                             if out_caller.is_none() && in_callee.is_none() && in_caller.is_none() && out_callee.is_none() {
